@@ -188,6 +188,7 @@ type rewriter struct {
 	curFunc  string
 	syncName string // local name of the sync import ("" if not imported)
 	used     bool
+	swappedRuntime bool
 }
 
 // ---------------------------------------------------------------------------
@@ -292,35 +293,89 @@ func (r *rewriter) rewriteChans(n ast.Node) ast.Node {
 		if !hasDefault {
 			fail("%s: select without a default case: blocking select in the code under test is not supported by the simulator", fset.Position(t.Pos()))
 		}
+		// select { cases...; default: D }  ->  switch { default: if case1 {..} else if case2 {..} else { D } }
+		// (first ready case in source order: one of the behaviours select may
+		// show; break keeps its meaning because of the switch, continue and
+		// labels pass through)
+		chanOps++
+		r.used = true
+		var defBody []ast.Stmt
+		type cl struct {
+			ifs *ast.IfStmt
+		}
+		var chain []*ast.IfStmt
 		for _, c := range t.Body.List {
 			cc := c.(*ast.CommClause)
-			// the communication itself stays real (non-blocking thanks to default);
-			// only sub-expressions and the body are rewritten
-			switch cm := cc.Comm.(type) {
-			case *ast.SendStmt:
-				cm.Chan = r.rewriteChans(cm.Chan).(ast.Expr)
-				cm.Value = r.rewriteChans(cm.Value).(ast.Expr)
-			case *ast.ExprStmt:
-				if u, ok := cm.X.(*ast.UnaryExpr); ok {
-					u.X = r.rewriteChans(u.X).(ast.Expr)
-				}
-			case *ast.AssignStmt:
-				if u, ok := cm.Rhs[0].(*ast.UnaryExpr); ok {
-					u.X = r.rewriteChans(u.X).(ast.Expr)
-				}
-			}
 			for i := range cc.Body {
 				cc.Body[i] = r.rewriteChans(cc.Body[i]).(ast.Stmt)
 			}
+			body := &ast.BlockStmt{List: cc.Body}
+			got := ast.NewIdent("vsimGot")
+			switch cm := cc.Comm.(type) {
+			case nil:
+				defBody = cc.Body
+			case *ast.SendStmt:
+				ch := r.rewriteChans(cm.Chan).(ast.Expr)
+				v := r.rewriteChans(cm.Value).(ast.Expr)
+				chain = append(chain, &ast.IfStmt{Cond: vcall("TrySend", ch, v), Body: body})
+			case *ast.ExprStmt:
+				u, ok := cm.X.(*ast.UnaryExpr)
+				if !ok || u.Op != token.ARROW {
+					fail("%s: unexpected select communication", fset.Position(cm.Pos()))
+				}
+				ch := r.rewriteChans(u.X).(ast.Expr)
+				chain = append(chain, &ast.IfStmt{
+					Init: &ast.AssignStmt{Lhs: []ast.Expr{ast.NewIdent("_"), ast.NewIdent("_"), got}, Tok: token.DEFINE, Rhs: []ast.Expr{vcall("TryRecv", ch)}},
+					Cond: got, Body: body})
+			case *ast.AssignStmt:
+				u, ok := cm.Rhs[0].(*ast.UnaryExpr)
+				if !ok || u.Op != token.ARROW {
+					fail("%s: unexpected select communication", fset.Position(cm.Pos()))
+				}
+				ch := r.rewriteChans(u.X).(ast.Expr)
+				if cm.Tok == token.DEFINE {
+					lhs := []ast.Expr{cm.Lhs[0], ast.NewIdent("_"), got}
+					if len(cm.Lhs) == 2 {
+						lhs[1] = cm.Lhs[1]
+					}
+					chain = append(chain, &ast.IfStmt{
+						Init: &ast.AssignStmt{Lhs: lhs, Tok: token.DEFINE, Rhs: []ast.Expr{vcall("TryRecv", ch)}},
+						Cond: got, Body: body})
+				} else {
+					t0, t1 := ast.NewIdent("vsimT0"), ast.NewIdent("vsimT1")
+					asg := &ast.AssignStmt{Lhs: []ast.Expr{cm.Lhs[0]}, Tok: token.ASSIGN, Rhs: []ast.Expr{t0}}
+					lhs := []ast.Expr{t0, ast.NewIdent("_"), got}
+					if len(cm.Lhs) == 2 {
+						lhs[1] = t1
+						asg = &ast.AssignStmt{Lhs: []ast.Expr{cm.Lhs[0], cm.Lhs[1]}, Tok: token.ASSIGN, Rhs: []ast.Expr{t0, t1}}
+					}
+					body.List = append([]ast.Stmt{asg}, body.List...)
+					chain = append(chain, &ast.IfStmt{
+						Init: &ast.AssignStmt{Lhs: lhs, Tok: token.DEFINE, Rhs: []ast.Expr{vcall("TryRecv", ch)}},
+						Cond: got, Body: body})
+				}
+			}
 		}
-		chanOps++
-		return t
+		var root ast.Stmt = &ast.BlockStmt{List: defBody}
+		for i := len(chain) - 1; i >= 0; i-- {
+			chain[i].Else = root
+			root = chain[i]
+		}
+		return &ast.SwitchStmt{Body: &ast.BlockStmt{List: []ast.Stmt{&ast.CaseClause{Body: []ast.Stmt{root}}}}}
 	case *ast.SendStmt:
 		chanOps++
 		r.used = true
 		ch := r.rewriteChans(t.Chan).(ast.Expr)
 		v := r.rewriteChans(t.Value).(ast.Expr)
 		return &ast.ExprStmt{X: vcall("Send", ch, v)}
+	case *ast.CallExpr:
+		if se, ok := t.Fun.(*ast.SelectorExpr); ok && se.Sel.Name == "Gosched" && len(t.Args) == 0 {
+			if id, ok := se.X.(*ast.Ident); ok && id.Name == "runtime" && id.Obj == nil {
+				r.used = true
+				r.swappedRuntime = true
+				return vcall("Gosched")
+			}
+		}
 	case *ast.UnaryExpr:
 		if t.Op == token.ARROW {
 			chanOps++
@@ -354,17 +409,19 @@ func (r *rewriter) rewriteChans(n ast.Node) ast.Node {
 				tok = token.DEFINE
 			}
 			okName := ast.NewIdent("vsimOk")
-			recv := &ast.AssignStmt{Lhs: []ast.Expr{key, okName}, Tok: token.DEFINE, Rhs: []ast.Expr{vcall("Recv2", t.X)}}
+			chVar := ast.NewIdent("vsimCh") // the range expression is evaluated once
+			bind := &ast.AssignStmt{Lhs: []ast.Expr{chVar}, Tok: token.DEFINE, Rhs: []ast.Expr{r.rewriteChans(t.X).(ast.Expr)}}
+			recv := &ast.AssignStmt{Lhs: []ast.Expr{key, okName}, Tok: token.DEFINE, Rhs: []ast.Expr{vcall("Recv2", chVar)}}
 			if tok == token.ASSIGN {
 				// the loop variable exists already: receive into a temporary
 				tmp := ast.NewIdent("vsimV")
-				recv = &ast.AssignStmt{Lhs: []ast.Expr{tmp, okName}, Tok: token.DEFINE, Rhs: []ast.Expr{vcall("Recv2", t.X)}}
+				recv = &ast.AssignStmt{Lhs: []ast.Expr{tmp, okName}, Tok: token.DEFINE, Rhs: []ast.Expr{vcall("Recv2", chVar)}}
 				body.List = append([]ast.Stmt{&ast.AssignStmt{Lhs: []ast.Expr{key}, Tok: token.ASSIGN, Rhs: []ast.Expr{tmp}}}, body.List...)
 			}
 			brk := &ast.IfStmt{Cond: &ast.UnaryExpr{Op: token.NOT, X: okName}, Body: &ast.BlockStmt{List: []ast.Stmt{&ast.BranchStmt{Tok: token.BREAK}}}}
 			// a `continue` in the body re-enters the for and receives again: same as range
 			body.List = append([]ast.Stmt{recv, brk}, body.List...)
-			return &ast.ForStmt{Body: body}
+			return &ast.BlockStmt{List: []ast.Stmt{bind, &ast.ForStmt{Body: body}}}
 		}
 	}
 	// generic traversal: replace Expr / Stmt / slices of them in the fields of n
@@ -393,6 +450,10 @@ func (r *rewriter) rewriteChans(n ast.Node) ast.Node {
 					continue
 				}
 				e.Set(reflect.ValueOf(r.rewriteChans(e.Interface().(ast.Node))))
+			}
+		case f.Kind() == reflect.Interface && !f.IsNil():
+			if nn, ok := f.Interface().(ast.Node); ok {
+				r.rewriteChans(nn)
 			}
 		case f.Kind() == reflect.Ptr && !f.IsNil():
 			if nn, ok := f.Interface().(ast.Node); ok {
@@ -504,6 +565,20 @@ func rewriteFile(f *ast.File, fname string) {
 		})
 		if !still {
 			removeImport(f, `"sync"`)
+		}
+	}
+	if r.swappedRuntime {
+		still := false
+		ast.Inspect(f, func(n ast.Node) bool {
+			if se, ok := n.(*ast.SelectorExpr); ok {
+				if id, ok := se.X.(*ast.Ident); ok && id.Name == "runtime" && id.Obj == nil {
+					still = true
+				}
+			}
+			return true
+		})
+		if !still {
+			removeImport(f, `"runtime"`)
 		}
 	}
 	if r.used {
@@ -804,8 +879,16 @@ func (r *rewriter) goStmt(g *ast.GoStmt) ast.Stmt {
 	}
 	var pre []ast.Stmt
 	fun := call.Fun
-	switch call.Fun.(type) {
-	case *ast.Ident, *ast.FuncLit:
+	bindFun := true
+	switch f := call.Fun.(type) {
+	case *ast.FuncLit:
+		bindFun = false
+	case *ast.Ident:
+		// a declared function is the same whenever it is looked at; a variable of function type is read at the go statement
+		bindFun = f.Obj != nil && f.Obj.Kind == ast.Var
+	}
+	switch {
+	case !bindFun:
 	default:
 		pre = append(pre, &ast.AssignStmt{Lhs: []ast.Expr{ast.NewIdent("vsimF0")}, Tok: token.DEFINE, Rhs: []ast.Expr{call.Fun}})
 		fun = ast.NewIdent("vsimF0")
